@@ -470,7 +470,7 @@ inductive Op where
   | new (kind : Kind) (id : String) (n : Nat)
   /-- `vars.push(vars[i].Clone())` -/
   | clone (i : Nat)
-  | mut (i : Nat) (m : Mut)
+  | upd (i : Nat) (m : Mut)
   /-- `vars[i].MergeFrom(vars[j])` -/
   | merge (i j : Nat)
   /-- `world.AddFeature(vars[i])` — `ModifiedFeatures.Update`: `MergeFrom` into the existing entry, else store `Clone()` -/
@@ -493,7 +493,7 @@ def step (s : State) : Op → Option State
     match s.vars[i]? with
     | none => none
     | some f => (cloneFeat s.st f).map fun r => { s with st := r.1, vars := s.vars ++ [r.2] }
-  | .mut i m =>
+  | .upd i m =>
     match s.vars[i]? with
     | none => none
     | some f => (mutate s.st f m).map fun r => { s with st := r.1, vars := s.vars.set i r.2 }
@@ -556,6 +556,33 @@ def cloneFeat (st : Store) (f : Feat) : Option (Store × Feat) :=
 /-- `CollectionFeature.MergeFrom` as it was: `c.Tags = other.Tags; c.Keys = other.Keys; …` -/
 def mergeCollection (e o : Feat) : Feat :=
   { e with id := o.id, tags := o.tags, keys := o.keys, values := o.values, sorted := o.sorted }
+
+/-- the loop of `AreaMembers.MergeFrom` as it was: a nil `ids` (polygon member) went through
+`copy`/truncate like any other, leaving `a.ids[i][0:0]` — non-nil when the receiver had (or `make` gave) a slice -/
+def mergeInner (st : Store) : List (Option Slice) → List (Option Slice) → Option (Store × List (Option Slice))
+  | [], _ => some (st, [])
+  | _ :: _, [] => none
+  | m :: mine, o :: theirs =>
+    match cells st o with
+    | none => none
+    | some src =>
+      match mergeInto st m src with
+      | none => none
+      | some a => (mergeInner a.1 mine theirs).map fun r => (r.1, a.2 :: r.2)
+
+def mergeAreaMembers (st : Store) (e o : Feat) : Option (Store × List (Option Slice) × Option Slice) :=
+  let g : Store × List (Option Slice) :=
+    if e.ids.length < o.ids.length then growIds st e.ids (o.ids.drop e.ids.length)
+    else (st, e.ids.take o.ids.length)
+  match mergeInner g.1 g.2 o.ids with
+  | none => none
+  | some i =>
+    match cells i.1 o.polygons with
+    | none => none
+    | some ps =>
+      match mergeInto i.1 e.polygons ps with
+      | none => none
+      | some p => some (p.1, i.2, p.2)
 
 end Old
 
